@@ -3,6 +3,7 @@ CONSTANTS
   RunIds = {1}
   Semantics = "pure"
   ModelSet = {"conv_bias_init", "gru_state_init", "rnn_state_init", "argmax_reduce", "expand_concat_add", "const_scaler_gemm", "prelu_slopes", "gemm_row_bias", "matmul_vector_weight", "logic_ops"}
+  Rich = TRUE
   MaxCalls = 3
 INVARIANTS HistoryIndependent OutputsComplete
 PROPERTY WeightsAndCallerTensorsImmutable
